@@ -2,6 +2,7 @@
 From Coq Require Import List NArith Arith.
 From MDW Require Import Bytes GenTypes Generated MemInfo MemInfoProofs DsoDebug DsoStream DsoStreamProofs Auxv AuxvProofs.
 From MDW Require MemWriter Writer Hoare Image ImagePayload.
+From MDW Require MemWriter Writer Hoare MiniDump Text Image ImageThreads.
 Import ListNotations.
 Local Open Scope N_scope.
 
@@ -75,3 +76,61 @@ Theorem C18_auxv_null_ends_the_vector : forall fuel (a rest rest' : bytes),
   parse_pairs fuel (a ++ rest) = parse_pairs fuel (a ++ rest').
 Proof. exact null_ends_the_vector. Qed.
 Print Assumptions C18_auxv_null_ends_the_vector.
+
+(* In the FINAL image of every dump: the memory-information list is its 16-byte header and exactly the encodings of the records
+   of the content, in order, under a directory entry of its type that names exactly those bytes. *)
+Theorem C18_whole_image_meminfo : forall c dirs lg s',
+  Image.image c MiniDump.empty_wst = MemWriter.Ok ((dirs, lg), s') -> Hoare.small (Hoare.blen s') ->
+  let n := length (Image.ic_meminfo c) in
+  exists off,
+    Bytes.slice (Writer.w_buf s') off (16 + Image.MEMINFO_SZ * n) =
+      (Bytes.le 4 16 ++ Bytes.le 4 48 ++ Bytes.le 8 (N.of_nat n)) ++ concat (map Image.enc_meminfo (Image.ic_meminfo c)) /\
+    In (Image.T_MEMINFO, {| MemWriter.l_rva := N.of_nat off; MemWriter.l_size := (16 + N.of_nat (Image.MEMINFO_SZ * n))%N |}) dirs.
+Proof. exact ImageThreads.image_meminfo. Qed.
+Print Assumptions C18_whole_image_meminfo.
+
+(* ... and every copied file (cpuinfo, status, lsb-release, cmdline, environ, auxv, maps, limits) that could be read is a stream
+   of its own type holding exactly the bytes read - wherever the step stands in the plan regenerated from the source. *)
+Theorem C18_whole_image_copied_files : forall c dirs lg s' st bs,
+  Image.image c MiniDump.empty_wst = MemWriter.Ok ((dirs, lg), s') -> Hoare.small (Hoare.blen s') ->
+  In st (map fst Generated.stream_plan) -> ImageThreads.raw_of c st = Some (Some bs) ->
+  exists off, Bytes.slice (Writer.w_buf s') off (length bs) = bs /\
+    In (Image.raw_type st, {| MemWriter.l_rva := N.of_nat off; MemWriter.l_size := N.of_nat (length bs) |}) dirs.
+Proof. exact ImageThreads.image_raw_stream. Qed.
+Print Assumptions C18_whole_image_copied_files.
+
+(* ... the open descriptors: one record per descriptor of the content, in order, with its number, mode and exactly its name ... *)
+Theorem C18_whole_image_descriptors : forall c dirs lg s',
+  Image.image c MiniDump.empty_wst = MemWriter.Ok ((dirs, lg), s') -> Hoare.small (Hoare.blen s') ->
+  exists rs off,
+    ImageThreads.run_rel (ImageThreads.handle_says 248) (Writer.w_buf s') (Image.ic_handles c) tt rs tt /\
+    Bytes.slice (Writer.w_buf s') off (16 + Image.HANDLE_SZ * length rs) = ImageThreads.handles_header (length rs) ++ concat (map Image.enc_handle rs) /\
+    In (Image.T_HANDLES, {| MemWriter.l_rva := N.of_nat off; MemWriter.l_size := (16 + N.of_nat (Image.HANDLE_SZ * length rs))%N |}) dirs.
+Proof. exact ImageThreads.image_handles. Qed.
+Print Assumptions C18_whole_image_descriptors.
+
+(* ... and the linker data: the debug record (version, position of the link-map array or 0xFFFFFFFF, count, r_brk, ld base,
+   dynamic address) immediately followed by the copy of the dynamic section; the array holds one record per loaded object, in
+   order, with its address, ld pointer and exactly its name. *)
+Theorem C18_whole_image_linker_data : forall c dirs lg s' version brk ldbase dynamic links dyn,
+  Image.image c MiniDump.empty_wst = MemWriter.Ok ((dirs, lg), s') -> Hoare.small (Hoare.blen s') ->
+  Image.ic_dso c = Image.IDsoOk version brk ldbase dynamic links dyn ->
+  exists rs offA offH,
+    ImageThreads.run_rel (ImageThreads.link_says 248) (Writer.w_buf s') links tt rs tt /\
+    Bytes.slice (Writer.w_buf s') offA (Image.LINK_SZ * length links) = concat (map Image.enc_link rs) /\
+    Bytes.slice (Writer.w_buf s') offH (36 + length dyn) =
+      Image.enc_debug version (match links with [] => 0xFFFFFFFF%N | _ => N.of_nat offA end) (N.of_nat (length links)) brk ldbase dynamic ++ dyn /\
+    In (Image.T_DSO, {| MemWriter.l_rva := N.of_nat offH; MemWriter.l_size := (36 + N.of_nat (length dyn))%N |}) dirs.
+Proof. exact ImageThreads.image_dso. Qed.
+Print Assumptions C18_whole_image_linker_data.
+
+(* ... and the system information: the 56-byte record with the position of the OS version string stored at offset 24, that
+   position designating exactly the version string written right behind the record. *)
+Theorem C18_whole_image_system_information : forall c dirs lg s',
+  Image.image c MiniDump.empty_wst = MemWriter.Ok ((dirs, lg), s') -> Hoare.small (Hoare.blen s') ->
+  exists off csd,
+    Bytes.slice (Writer.w_buf s') off Image.SYSINFO_SZ = Image.enc_sysinfo (Image.ic_sysinfo c) csd /\
+    ImageThreads.designates 248 (Writer.w_buf s') csd (Text.md_string (Image.ic_osver c)) /\ N.to_nat (MemWriter.l_rva csd) = (off + Image.SYSINFO_SZ)%nat /\
+    In (Image.T_SYSINFO, {| MemWriter.l_rva := N.of_nat off; MemWriter.l_size := N.of_nat Image.SYSINFO_SZ |}) dirs.
+Proof. exact ImageThreads.image_sysinfo. Qed.
+Print Assumptions C18_whole_image_system_information.
